@@ -38,8 +38,10 @@ Exprs == IF Full
          ELSE { A, K("int:1"), Bin(A, "Add", B), Cl("max", <<A, B>>), Cl("min", <<Ls(<<A, B>>)>>), Ife(C, A, B), Un("USub", Cl("min", <<A, B>>)) }
 Conds == IF Full
          THEN { C, Cmp(A, "Gt", B), Un("Not", C), Bo("And", <<C, Cmp(A, "Gt", K("int:0"))>>), Bo("Or", <<Cmp(A, "Gt", B), C>>),
-                Cl("any", <<Ls(<<C, Cmp(A, "Gt", B)>>)>>), Un("Not", Bo("And", <<C, Cmp(A, "Gt", B)>>)), Cl("all", <<Ls(<<C, Cmp(A, "Gt", K("int:0"))>>)>>) }
-         ELSE { C, Cmp(A, "Gt", B), Un("Not", C), Bo("And", <<C, Cmp(A, "Gt", K("int:0"))>>), Cl("any", <<Ls(<<C, Cmp(A, "Gt", B)>>)>>) }
+                Cl("any", <<Ls(<<C, Cmp(A, "Gt", B)>>)>>), Un("Not", Bo("And", <<C, Cmp(A, "Gt", B)>>)), Cl("all", <<Ls(<<C, Cmp(A, "Gt", K("int:0"))>>)>>),
+                Bo("And", <<Un("Not", C), Un("Not", Cmp(A, "Gt", B))>>), Bo("Or", <<Un("Not", C), Un("Not", Cmp(A, "Gt", B)), Cmp(B, "Gt", K("int:1"))>>) }
+         ELSE { C, Cmp(A, "Gt", B), Un("Not", C), Bo("And", <<C, Cmp(A, "Gt", K("int:0"))>>), Cl("any", <<Ls(<<C, Cmp(A, "Gt", B)>>)>>),
+                Bo("Or", <<Un("Not", C), Un("Not", Cmp(A, "Gt", B))>>) }
 Kinds == {"asg", "aug", "if-asg", "if-aug", "if-asg-asg", "if-aug-aug", "if-aug-asg", "if-asg-aug", "if-ret-ret", "if-ret", "elif", "ret-expr", "if-asg-other"}
 Inits == {A, K("int:1")}
 
